@@ -640,11 +640,26 @@ def _serialise_history_scenario(ro, sym, roots, ninst):
     Several values of one (union-bearing) type serialised through the same memoised converter:
     a converter that remembers anything about earlier values shows up here.
     """
-    cands = [r for (r, a) in sorted(roots.items()) if tg.contains(a, lambda x: x[0] in ('union', 'opt', 'vol', 'cls', 'gen', 'dict', 'list'))]
-    if not cands:
-        return [], ninst
-    r = ro.choice(cands)
     out = []
+    r = None
+    if ro.random() < 0.5:
+        # a union whose members share a run-time container type but treat the elements differently
+        shape = ro.choice(['list', 'tlist', 'dict', 'vtuple'])
+        (e1, e2) = ro.sample(['int', 'str', 'Fraction', 'date', 'float', 'Decimal'], 2)
+        if shape == 'dict':
+            ast = ['union', ['dict', ['s', 'str'], ['s', e1]], ['dict', ['s', 'str'], ['s', e2]]]
+        else:
+            ast = ['union', [shape, ['s', e1]], [shape, ['s', e2]]]
+        ast = tg.normalise_unions(ast)
+        r = 'ru%d' % ninst
+        roots[r] = ast
+        out.append({'op': 'build', 'name': r, 't': ast})
+    else:
+        cands = [r_ for (r_, a) in sorted(roots.items())
+                 if tg.contains(a, lambda x: x[0] in ('union', 'opt', 'vol', 'cls', 'gen', 'dict', 'list'))]
+        if not cands:
+            return [], ninst
+        r = ro.choice(cands)
     names = []
     for _ in range(ro.choice([2, 3, 4])):
         iname = f'i{ninst}'
@@ -655,7 +670,7 @@ def _serialise_history_scenario(ro, sym, roots, ninst):
     order = names * 2
     ro.shuffle(order)
     for iname in order[:ro.choice([2, 3, 4, 5])]:
-        out.append({'op': 'serialise', 'inst': iname, 'root': r, 'infer': ro.random() < 0.4, 'roundtrip': ro.random() < 0.3, 'custom': None})
+        out.append({'op': 'serialise', 'inst': iname, 'root': r, 'infer': ro.random() < 0.3, 'roundtrip': ro.random() < 0.3, 'custom': None})
     return out, ninst
 
 
